@@ -38,7 +38,7 @@ Lemma root_type_agrees VS ES ot rt :
   Vld.ValidSpec.root_type VS (option_map (fun o => (Syn.Ast.ot_value o, vpos (Syn.Ast.ot_pos o))) ot) = Some rt ->
   exists rt', ExeA.ArgSpec.s_root_type ES (e_kind ot) = Some rt'.
 Proof.
-  intros Ha Hr. unfold schemas_agree in Ha.
+  intros Ha Hr. unfold schemas_agree in Ha. apply andb_true_iff in Ha as [Ha _].
   apply andb_true_iff in Ha as [Ha Hsub]. apply andb_true_iff in Ha as [Ha Hmut]. clear Ha.
   destruct ot as [o|]; [|eexists; reflexivity].
   cbn [option_map Vld.ValidSpec.root_type] in Hr. unfold e_kind.
